@@ -225,11 +225,13 @@ def run_preset_impl(case):
     from qutip.solver.sode._noise import PreSetWiener
     noise = np.array(case["noise"], dtype=float)
     tlist = case["t0"] + case["dt"] * np.arange(case["T"] + 1)
+    snap = noise.tobytes()
     try:
         p = PreSetWiener(noise, tlist, case["n"], case["het"], case["meas"])
     except ValueError as e:
         return {"init": None, "err": str(e)[:60]}
-    out = {"init": fracs(p.noise), "answers": []}
+    out = {"init": fracs(p.noise), "answers": [],
+           "input_modified": noise.tobytes() != snap}
     for k, N in case["reqs"]:
         try:
             out["answers"].append(fracs(np.array(p.dW(case["t0"] + k * case["dt"], N))))
@@ -1353,6 +1355,8 @@ def preset_oracle(case, r):
         return bad
     if not good_shape:
         return ["mis-shaped record accepted"]
+    if r.get("input_modified"):
+        return ["the record array handed to PreSetWiener was modified in place"]
     flat = noise.reshape(n, T)
     for k in range(T):
         for i in range(n):
